@@ -35,6 +35,9 @@ func newSockRig(t *testing.T, dynamic bool) (*sockRig, error) {
 	return newSockRigWithApp(t, dynamic, &realApp{t0: time.Now()})
 }
 
+// sockRigProxy: the next rig listens behind the PROXY protocol (UseTCPProxy=Y).
+var sockRigProxy bool
+
 func newSockRigWithApp(t *testing.T, dynamic bool, app quickfix.Application) (*sockRig, error) {
 	tag := strconv.FormatInt(time.Now().UnixNano()%1000000, 10)
 	id := quickfix.SessionID{BeginString: "FIX.4.2", SenderCompID: "ACC" + tag, TargetCompID: "CLI" + tag}
@@ -42,6 +45,9 @@ func newSockRigWithApp(t *testing.T, dynamic bool, app quickfix.Application) (*s
 	g := map[string]string{config.SocketAcceptPort: strconv.Itoa(port), config.ResetOnLogon: "Y"}
 	if dynamic {
 		g[config.DynamicSessions] = "Y"
+	}
+	if sockRigProxy {
+		g[config.UseTCPProxy] = "Y"
 	}
 	set := storekit.Settings(g, id)
 	acc, err := quickfix.NewAcceptor(app, quickfix.NewMemoryStoreFactory(), set, quickfix.NewNullLogFactory())
@@ -97,7 +103,10 @@ func TestC09_AcceptorSocket(t *testing.T) {
 	c := c09()
 	shard, _ := vk.Shard()
 	dynamic := (int(vk.Seed())+shard)%2 == 0
+	proxied := shard%2 == 1 // odd shards: the acceptor listens behind the PROXY protocol
+	sockRigProxy = proxied
 	r, err := newSockRig(t, dynamic)
+	sockRigProxy = false
 	if err != nil {
 		t.Skipf("cannot listen on loopback: %v", err)
 	}
@@ -110,6 +119,15 @@ func TestC09_AcceptorSocket(t *testing.T) {
 		vk.Guard(func() {
 			p := peer.New("FIX.4.2", r.id.TargetCompID, r.id.SenderCompID)
 			var stream []byte
+			if proxied {
+				// a PROXY protocol preamble in front of the FIX stream: well-formed TCP ones, ones that
+				// describe a non-TCP endpoint (legal for the protocol), unknown and broken ones
+				pre := rapid.SampledFrom(proxyPreambles).Draw(t, "proxy-preamble")
+				stream = append(stream, pre...)
+				if len(pre) > 0 {
+					c.Class("socket:proxy-preamble")
+				}
+			}
 			first := rapid.SampledFrom([]string{"logon", "logon", "logon-unknown-session", "logon-other-begin", "heartbeat", "garbage"}).Draw(t, "first")
 			switch first {
 			case "logon":
@@ -195,6 +213,28 @@ func clipB(b []byte) []byte {
 		return append(append([]byte{}, b[:500]...), append([]byte(" ... "), b[len(b)-150:]...)...)
 	}
 	return b
+}
+
+var proxyV2Sig = "\r\n\r\n\x00\r\nQUIT\n"
+
+var proxyPreambles = [][]byte{
+	nil, nil,
+	[]byte("PROXY TCP4 10.1.1.1 10.1.1.2 40000 5001\r\n"),
+	[]byte("PROXY TCP6 ::1 ::1 40000 5001\r\n"),
+	[]byte("PROXY UNKNOWN\r\n"),
+	[]byte("PROXY TCP4 300.1.1.1 x 1 2\r\n"),
+	[]byte(proxyV2Sig + "\x21\x11\x00\x0c\x0a\x01\x01\x01\x0a\x01\x01\x02\x9c\x40\x13\x89"),                 // v2 TCP over IPv4
+	[]byte(proxyV2Sig + "\x21\x12\x00\x0c\x0a\x01\x01\x01\x0a\x01\x01\x02\x9c\x40\x13\x89"),                 // v2 UDP over IPv4
+	append([]byte(proxyV2Sig+"\x21\x31\x00\xd8"), append(append(make([]byte, 0, 216), padTo([]byte("/tmp/a.sock"), 108)...), padTo([]byte("/tmp/b.sock"), 108)...)...), // v2 AF_UNIX stream
+	[]byte(proxyV2Sig + "\x20\x00\x00\x00"),                                                                     // v2 LOCAL
+	[]byte(proxyV2Sig + "\x21\x11\xff\xff\x0a"),                                                                 // v2 with a length that lies
+	[]byte(proxyV2Sig[:7]),
+}
+
+func padTo(b []byte, n int) []byte {
+	out := make([]byte, n)
+	copy(out, b)
+	return out
 }
 
 var sockSoup = [][]byte{
